@@ -45,3 +45,194 @@ Theorem C15_fixed_agrees_with_legacy :
     vote_less_fixed x y = vote_less_legacy x y.
 Proof. exact fixed_agrees_with_legacy. Qed.
 Print Assumptions C15_fixed_agrees_with_legacy.
+
+(* ================================================================== accounting invariant *)
+From Verif Require Import Gov.AList Gov.Tally Gov.Inv Gov.Inv2.
+
+(** GovInv holds after every history of governance transactions (accepted, rejected, or
+    executed on a discarded block state), block boundaries, restarts and plain transfers to
+    aergo.system; [received] is the sum of those transfers (F19: the balance clause needs it). *)
+Theorem C15_GovInv_all_histories : forall c hs g donated g' received,
+  GovInv donated (g_d g) -> Forall hop_wf hs -> hrun c g hs = (g', received) ->
+  GovInv (donated + received) (g_d g').
+Proof. exact GovInv_all_histories. Qed.
+Print Assumptions C15_GovInv_all_histories.
+
+(** What GovInv says: total = Σ stakes; balance(aergo.system) = total + donated; every
+    stored tally = Σ of the recorded amounts of the ballots naming the candidate; recorded
+    vote amount between 0 and the current stake; rankings list each candidate once; the
+    stored vote total of a parameter issue = Σ amounts of its ballots. *)
+Theorem C15_GovInv_clauses : forall donated d,
+  GovInv donated d ->
+  d_total d = sum_stakes d /\
+  d_sysbal d = d_total d + donated /\
+  (forall issue c, tally_get (get_result d issue) c = tally_spec d issue c) /\
+  (forall issue a v, get_vote d issue a = Some v -> 0 <= vt_amount v <= st_amount (get_stake d a)) /\
+  (forall issue, NoDup (map fst (get_result d issue))) /\
+  (forall issue, is_ex issue = true -> getZ issue (d_vtotals d) = vsum_v (d_votes d) issue).
+Proof. exact GovInv_clauses. Qed.
+Print Assumptions C15_GovInv_clauses.
+
+Theorem C15_apply_tx_preserves_GovInv : forall c no d m t e d' m' donated,
+  GovInv donated d -> tx_wf t -> apply_tx c no d m t = (e, d', m') -> GovInv donated d'.
+Proof. exact apply_tx_preserves_GovInv. Qed.
+Print Assumptions C15_apply_tx_preserves_GovInv.
+
+(** F19: the literal "balance = total" is refuted by one accepted plain transfer. *)
+Theorem C15_sysbal_equals_total_refuted :
+  exists d from amt, GovInv 0 d /\ 0 <= amt <= bal_of d from /\
+    d_sysbal (donate d from amt) <> d_total (donate d from amt).
+Proof. exact sysbal_equals_total_refuted. Qed.
+Print Assumptions C15_sysbal_equals_total_refuted.
+
+(** Unstaking returns exactly the requested amount and touches nobody else's money. *)
+Theorem C15_unstake_returns_exactly : forall c no d m who amt d' m' donated,
+  GovInv donated d -> 0 <= amt ->
+  exec_unstake c no d m who amt = (EOk, d', m') ->
+  bal_of d' who = bal_of d who + amt /\
+  d_sysbal d' = d_sysbal d - amt /\
+  d_total d' = d_total d - amt /\
+  st_amount (get_stake d' who) = st_amount (get_stake d who) - amt /\
+  (forall a, a <> who -> bal_of d' a = bal_of d a /\ get_stake d' a = get_stake d a).
+Proof. exact unstake_returns_exactly. Qed.
+Print Assumptions C15_unstake_returns_exactly.
+
+(** Lock period and minimum stake. *)
+Theorem C15_stake_refused_in_lock_period : forall c no d m who amt,
+  stake_present d who = true -> no < st_when (get_stake d who) + StakingDelay -> amt <= bal_of d who ->
+  fst (fst (exec_stake c no d m who amt)) = ELessTime.
+Proof. exact stake_refused_in_lock_period. Qed.
+Print Assumptions C15_stake_refused_in_lock_period.
+
+Theorem C15_stake_refused_below_minimum : forall c no d m who amt,
+  st_amount (get_stake d who) + amt < staking_min c m ->
+  fst (fst (exec_stake c no d m who amt)) <> EOk.
+Proof. exact stake_refused_below_minimum. Qed.
+Print Assumptions C15_stake_refused_below_minimum.
+
+Theorem C15_unstake_refused : forall c no d m who amt d' m',
+  exec_unstake c no d m who amt = (EOk, d', m') ->
+  st_when (get_stake d who) + StakingDelay <= no /\ amt <= st_amount (get_stake d who) /\
+  (st_amount (get_stake d who) - amt = 0 \/ staking_min c m <= st_amount (get_stake d who) - amt).
+Proof. exact unstake_refused. Qed.
+Print Assumptions C15_unstake_refused.
+
+Theorem C15_vote_refused : forall c no d m who issue cands d' m',
+  exec_vote c no d m who issue cands = (EOk, d', m') ->
+  st_amount (get_stake d who) <> 0 /\
+  (get_vote d issue who <> None -> st_when (get_stake d who) + VotingDelay <= no).
+Proof. exact vote_refused. Qed.
+Print Assumptions C15_vote_refused.
+
+(** A rejected governance transaction leaves the durable state unchanged. *)
+Theorem C15_rejected_tx_unchanged : forall c no d m t e d' m',
+  apply_tx c no d m t = (e, d', m') -> e <> EOk -> d' = d.
+Proof. exact rejected_tx_unchanged. Qed.
+Print Assumptions C15_rejected_tx_unchanged.
+
+(* ================================================================== voting power rank *)
+From Verif Require Import Gov.VprProofs.
+
+(** Buckets stay strictly ordered by account id under vprStore.update, hence a bucket's
+    stored bytes are a function of its set of entries. *)
+Theorem C15_vpr_bucket_sorted : forall e b, buckets_sorted b -> buckets_sorted (store_update e b).
+Proof. exact vpr_bucket_sorted. Qed.
+Print Assumptions C15_vpr_bucket_sorted.
+
+Theorem C15_bucket_canonical : forall l1 l2,
+  bucket_sorted l1 -> bucket_sorted l2 -> Permutation l1 l2 -> l1 = l2.
+Proof. exact bucket_canonical. Qed.
+Print Assumptions C15_bucket_canonical.
+
+(** vpr_mem_equals_reload, bucket part (what the state root and pickVotingRewardWinner's walk
+    read): in histories in which every executed block state is connected — transactions are
+    accepted or refused by validation, no execution on a discarded block state — the stored
+    buckets equal the in-memory ones.  _partial: totalPower and the powers map are not
+    covered by the proof (they are compared on every run by the correspondence check). *)
+Theorem C15_vpr_mem_equals_reload_partial : forall c g ops g',
+  Connected c g ops g' -> gmirror (g_d g) (g_m g) -> gmirror (g_d g') (g_m g').
+Proof. exact mirror_connected_histories. Qed.
+Print Assumptions C15_vpr_mem_equals_reload_partial.
+
+(** F12: without that hypothesis the clause fails — one execution on a block state that is
+    never connected leaves residue in the process-wide rank. *)
+Theorem C15_vpr_mem_equals_reload_refuted :
+  exists c g t, g_m g = reload c (g_d g) /\
+    let g' := snd (step c (snd (step c g (OGhost t))) (OBlock (g_no g + 1))) in
+    v_total (m_vpr (g_m g')) <> v_total (load_vpr (d_vpr (g_d g'))).
+Proof. exact vpr_mem_equals_reload_refuted. Qed.
+Print Assumptions C15_vpr_mem_equals_reload_refuted.
+
+(** A transaction refused by validation does not touch the process-wide state. *)
+Theorem C15_rejected_tx_memory_unchanged : forall c no d m t e d' m',
+  apply_tx c no d m t = (e, d', m') -> e <> EOk -> e <> EPanic ->
+  (forall who amt, t = TUnstake who amt -> e <> EInsufficient) -> m' = m.
+Proof. exact rejected_tx_memory_unchanged. Qed.
+Print Assumptions C15_rejected_tx_memory_unchanged.
+
+(* ================================================================== names *)
+From Verif Require Import Gov.Names Gov.NamesProofs.
+
+(** A name is bound to at most one owner (and the stored registry never holds two entries
+    for one name). *)
+Theorem C15_name_one_owner : forall s k o1 d1 o2 d2,
+  al_get N.eqb k (n_cur s) = Some (o1, d1) -> al_get N.eqb k (n_cur s) = Some (o2, d2) -> o1 = o2 /\ d1 = d2.
+Proof. exact name_one_owner. Qed.
+Print Assumptions C15_name_one_owner.
+
+Theorem C15_registry_nodup : forall price s o e s',
+  NoDup (map fst (n_cur s)) -> nstep price s o = (e, s') -> NoDup (map fst (n_cur s')).
+Proof. exact registry_nodup. Qed.
+Print Assumptions C15_registry_nodup.
+
+(** Created only for at least the price, only when free, bound to the creator, nothing else
+    changes. *)
+Theorem C15_name_create_only_for_price_when_free : forall price s sender name amt s',
+  nstep price s (NCreate sender name amt) = (NOk, s') ->
+  price <= amt /\ amt <= nbal s sender /\ al_get N.eqb name (n_cur s) = None /\
+  al_get N.eqb name (n_cur s') = Some (sender, sender) /\
+  (forall k, k <> name -> al_get N.eqb k (n_cur s') = al_get N.eqb k (n_cur s)) /\
+  n_namebal s' = n_namebal s + amt.
+Proof. exact create_only_for_price_when_free. Qed.
+Print Assumptions C15_name_create_only_for_price_when_free.
+
+(** Changed only by its owner — or by a transaction whose account field is the name itself
+    (the chain resolves that account to the name's destination before executing). *)
+Theorem C15_name_update_only_by_owner : forall price s sender acct name dest amt s',
+  nstep price s (NUpdate sender acct name dest amt) = (NOk, s') ->
+  price <= amt /\
+  (acct = AName name \/ exists o, owner_of s name = Some o /\ acct = AAddr o) /\
+  al_get N.eqb name (n_init s) <> None /\
+  al_get N.eqb name (n_cur s') = Some (dest, dest) /\
+  (forall k, k <> name -> al_get N.eqb k (n_cur s') = al_get N.eqb k (n_cur s)).
+Proof. exact update_only_by_owner. Qed.
+Print Assumptions C15_name_update_only_by_owner.
+
+Theorem C15_rejected_name_tx_unchanged : forall price s o e s',
+  nstep price s o = (e, s') -> e <> NOk -> s' = s.
+Proof. exact rejected_name_tx_unchanged. Qed.
+Print Assumptions C15_rejected_name_tx_unchanged.
+
+Theorem C15_name_tx_conserves : forall price s o e s',
+  (forall a, 0 <= nbal s a) -> nstep price s o = (e, s') -> nsum s' = nsum s /\ (forall a, 0 <= nbal s' a).
+Proof. exact name_tx_conserves. Qed.
+Print Assumptions C15_name_tx_conserves.
+
+(* ================================================================== parameters *)
+From Verif Require Import Gov.ParamProofs.
+
+(** A parameter vote for a NEGATIVE decimal passes validateById; when it reaches the
+    threshold the running node keeps the negative value while the state stores its absolute
+    value: memory and reload differ at a block boundary, and a restarted node validates the
+    same staking transaction differently (known finding C15:param-negative-sign-dropped). *)
+Theorem C15_params_mem_equals_reload_refuted :
+  exists c (g : gstate), get_param c (g_m g) 1%N <> get_param c (reload c (g_d g)) 1%N.
+Proof. exact params_mem_equals_reload_refuted. Qed.
+Print Assumptions C15_params_mem_equals_reload_refuted.
+
+Theorem C15_restart_changes_validation_refuted :
+  exists c (g : gstate) t,
+    fst (fst (apply_tx c (g_no g) (g_d g) (g_m g) t)) = EOk /\
+    fst (fst (apply_tx c (g_no g) (g_d g) (reload c (g_d g)) t)) = ETooSmall.
+Proof. exact restart_changes_validation_refuted. Qed.
+Print Assumptions C15_restart_changes_validation_refuted.
